@@ -114,9 +114,9 @@ def LocalOk (s : State) (l : Local) : Prop :=
   | .casJoin sc => l.finishing = false ∧ ∃ g c, sc = .resizing g c ∧ c ≠ 1
   | .swapNext => l.finishing = false
   | .storeIndex => l.finishing = false
-  | .claimCas _ => l.finishing = false
-  | .leaveLoad => l.finishing = false
-  | .leaveCas _ => l.finishing = false
+  | .claimCas ni => l.finishing = false ∧ l.i < l.bound ∧ 0 < ni
+  | .leaveLoad => l.finishing = false ∧ (l.i < 0 ∨ (s.n : Int) ≤ l.i)
+  | .leaveCas _ => l.finishing = false ∧ (l.i < 0 ∨ (s.n : Int) ≤ l.i)
   | .claimLoad => l.finishing = true → l.advance = true ∧ l.i ≤ s.n ∧ MovedFrom s l.i
   | .dispatch => l.finishing = true → l.i < s.n ∧ MovedFrom s (l.i + 1)
   | .processBin => 0 ≤ l.i ∧ l.i < s.n ∧ (l.finishing = true → MovedFrom s (l.i + 1))
